@@ -98,7 +98,15 @@ class Func(object):
     @property
     def node(self):
         """The definition with calls to *new* private helpers (not in sa/known_functions.txt) replaced by their bodies;
-        identical to ``raw_node`` on the tree the rule tables were frozen on (see sa/inline.py)."""
+        identical to ``raw_node`` on the tree the rule tables were frozen on (see sa/inline.py).  A new private helper whose
+        every call was inlined into its callers is presented as an empty function: its statements are analysed where they
+        run (in the callers), not a second time out of context."""
+        if self.index.helper_status(self) == 'inlined':
+            if getattr(self, '_stub', None) is None:
+                import copy
+                self._stub = copy.copy(self.raw_node)
+                self._stub.body = [ast.copy_location(ast.Pass(), self.raw_node)]
+            return self._stub
         if self._expanded is None:
             if self.index.known_functions is None:
                 self._expanded = self.raw_node
@@ -320,11 +328,48 @@ class Index(object):
         self.functions = {}
         self.consulted = set()
         self.known_functions = None
+        self.inlined_calls = {}
+        self._helper_status = {}
         kf = os.path.join(os.path.dirname(os.path.abspath(__file__)), 'known_functions.txt')
         if os.path.exists(kf) and not os.environ.get('VERIF_NO_INLINE'):
             with open(kf) as fh:
                 self.known_functions = set(l.strip() for l in fh if l.strip() and not l.startswith('#'))
         self._load()
+
+    def helper_status(self, func):
+        """'known' (the function existed when the rule tables were frozen), 'inlined' (a new private helper all of whose
+        call sites - every reference to its name in its module - were replaced by its body) or 'new'."""
+        if self.known_functions is None or func.qualname in self.known_functions or not func.name.startswith('_') \
+                or func.name.startswith('__'):
+            return 'known'
+        key = id(func.raw_node)
+        if key in self._helper_status:
+            return self._helper_status[key]
+        self._helper_status[key] = 'new'          # while computing (recursion through Func.node)
+        mod = func.module
+        refs = 0
+        for n in ast.walk(mod.tree):
+            if isinstance(n, ast.Name) and n.id == func.name and isinstance(n.ctx, ast.Load):
+                refs += 1
+            elif isinstance(n, ast.Attribute) and n.attr == func.name and isinstance(n.ctx, ast.Load):
+                refs += 1
+        # references from other modules make the helper part of an interface: analyse it on its own
+        for m in self.modules.values():
+            if m is not mod and func.name in m.source:
+                self._helper_status[key] = 'new'
+                return 'new'
+        for f in list(self.functions.values()):
+            if f.module is mod and f is not func:
+                f.node
+        for c in self.classes.values():
+            if c.module is mod:
+                for mem in c.members.values():
+                    for g in (mem.func, mem.fget, mem.fset, mem.fdel):
+                        if g is not None and g is not func and g.module is mod:
+                            g.node
+        status = 'inlined' if refs > 0 and self.inlined_calls.get(key, 0) >= refs else 'new'
+        self._helper_status[key] = status
+        return status
 
     # -- loading -------------------------------------------------------------
     def _load(self):
